@@ -227,6 +227,28 @@ def c_reset(mode, arg):
 
 
 @_rec
+def c_reset_flags(soft, mixed, hard, args):
+    """reset with any combination of mode flags (mixed: None = not given on the command line, i.e. the default true)"""
+    argv = ["reset"] + (["--soft"] if soft else []) + ([] if mixed is None else ["--mixed=%s" % ("true" if mixed else "false")]) \
+        + (["--hard"] if hard else []) + _pos(args)
+    m = True if mixed is None else mixed          # the flag's default is true; the model applies reset.go's own rule
+    return Cmd("reset-flags", argv, ["reset", "1" if soft else "0", "1" if m else "0", "1" if hard else "0"] + [hx(B(a)) for a in args])
+
+
+@_rec
+def c_switch_flags(names, create=b""):
+    create = B(create)
+    return Cmd("switch-flags", ["switch"] + ([b"--create=" + create] if create else []) + _pos(names),
+               ["switch", hx(create)] + [hx(B(n)) for n in names])
+
+
+@_rec
+def c_cat_file_flags(t, p, args):
+    return Cmd("cat-file-flags", ["cat-file"] + (["-t"] if t else []) + (["-p"] if p else []) + _pos(args),
+               ["cat-file", "1" if t else "0", "1" if p else "0"] + [hx(B(a)) for a in args])
+
+
+@_rec
 def c_restore(paths, staged=False, decor=None):
     return Cmd("restore-staged" if staged else "restore",
                ["restore"] + (["--staged"] if staged else []) + _pos(paths),
